@@ -17,6 +17,9 @@ exclude, set_locales):
                    paths / path lists, with and without keys, key lists, `re:` keys; [[includes]]
                    and [[excludes]] as files of their own) in a temporary directory and loaded by
                    TOMLParser().parse; the oracle works from the generated data
+  FILTER-toml-e2e  the same data and queries through the END-TO-END model (Model/FilterE2E.v): rule
+                   paths as pattern texts parsed by the Pattern model, bound with with_env and
+                   matched by Matcher.match_ on the Coq regex engine -- no match tables
   FILTER-build     configurations whose construction raises (re.error, ExcludeError)
   COMPILE          _compile_rule expansion: path lists x (nested) key lists, probes on keys
   INFILE           Observer(filter=config.filter) driven by ContentComparer.compare on
@@ -535,10 +538,37 @@ def check_tables(chk, desc, ops=()):
                      {"real": real_row(t), "expected": expected_row(t)})
 
 
+NONE_LOCALE = "<none>"      # File.locale None: a locale no configuration lists
+
+
+def enc_trule(r):
+    p = r["path"]
+    path = [0, s2l(p)] if isinstance(p, str) else [1, [s2l(x) for x in p]]
+    return [path, [enc_key(r["key"])] if "key" in r else [], s2l(r["action"])]
+
+
+def enc_slocs(ls):
+    return [] if ls is None else [[s2l(x) for x in ls]]
+
+
+def enc_tconfig(c):
+    """the configuration with its pattern TEXTS, environ and root (Model/FilterE2E.v tconfig)"""
+    return [[[s2l("l"), s2l("l10n/{locale}")]], [s2l(ENV["root"])], enc_slocs(c["locales"]),
+            [[s2l(p["l10n"]), enc_slocs(p["locales"])] for p in c["paths"]],
+            [enc_trule(r) for r in c["rules"]],
+            [enc_tconfig(x) for x in c["children"]], [enc_tconfig(x) for x in c["excludes"]]]
+
+
+def enc_tquery(op):
+    _, li, fi, key = op
+    return [s2l(LOCS[li] if LOCS[li] is not None else NONE_LOCALE), s2l(fullpath(FILES[fi])),
+            [] if key is None else [s2l(key)]]
+
+
 def run_filter_stream(chk, model, name, descs, nq, oracle_on=True, finding_stream=False,
-                      session=None):
+                      session=None, e2e=False):
     rng = chk.rng
-    cases, impl, reqs, reqs_spec = [], [], [], []
+    cases, impl, reqs, reqs_spec, reqs_e2e = [], [], [], [], []
     for desc in descs:
         check_tables(chk, desc)
         ops = gen_queries(rng, nq)
@@ -548,6 +578,8 @@ def run_filter_stream(chk, model, name, descs, nq, oracle_on=True, finding_strea
         rt = retable(desc)
         reqs.append((0, [rt, enc_config(desc), [enc_op(o) for o in ops]]))
         reqs_spec.append((1, [rt, enc_config(desc), [enc_op(o)[1:] for o in ops]]))
+        if e2e:
+            reqs_e2e.append((4, [rt, enc_tconfig(desc), [enc_tquery(o) for o in ops]]))
         if out[0] != 0:
             chk.count((name, "raise", json.dumps(desc, sort_keys=True)))
             continue
@@ -576,6 +608,12 @@ def run_filter_stream(chk, model, name, descs, nq, oracle_on=True, finding_strea
             chk.sample({"suite": name, "config": c["config"],
                         "queries": [[LOCS[o[1]], fullpath(FILES[o[2]]), o[3]] for o in c["ops"][:5]],
                         "impl": [common.l2s(v) for v in impl[len(cases) // 2][1][:5]]})
+    if model and e2e:
+        # the pattern-text model: PatternParser, with_env, match_ on the engine instead of tables
+        eouts = model.call(reqs_e2e, chunk=25)
+        e2 = [o if o[0] != 0 else [0, [q[1] if q[0] == 0 else ["raise", q[1]] for q in o[1]]]
+              for o in eouts]
+        chk.correspond(name + "-e2e", cases, impl, e2)
     if model:
         outs = model.call(reqs, chunk=50)
         # stateful model: [st, pure] per query
@@ -927,7 +965,8 @@ def run(chk, runner_ok):
         try:
             descs = [flatten_keys(copy.deepcopy(TOML_WITNESS))] + \
                     [flatten_keys(gen_config(rng)) for _ in range(chk.n(300, 2000))]
-            run_filter_stream(chk, model, "FILTER-toml", descs, chk.n(40, 60), session=toml_session)
+            run_filter_stream(chk, model, "FILTER-toml", descs, chk.n(40, 60), session=toml_session,
+                              e2e=True)
         finally:
             ENV["root"] = ROOT
     # ---- construction that raises ---------------------------------------
